@@ -368,6 +368,14 @@ func (pe *planEval) collection(fn, name string) string {
 		}
 		if len(r.Loop) > 0 {
 			loop = stripDsl(r.Loop[len(r.Loop)-1])
+			if strings.HasPrefix(loop, "rrange ") {
+				// walking X from the last element to the first and appending = storing element i at len(X)-i-1
+				over := strings.TrimPrefix(loop, "rrange ")
+				loop = "range " + over
+				if idx == "[i]" {
+					idx = "[len(" + over + ") - i - 1]"
+				}
+			}
 		}
 		parts = append(parts, "each"+idx+"("+v+")")
 	}
@@ -425,7 +433,13 @@ func (pe *planEval) rowValue(fn string, r gee.Row) string {
 			}
 			val := pe.value(fn, v.args[hole])
 			consts := constAlternatives(val)
-			if consts == nil {
+			isDir := consts != nil
+			for _, k := range consts {
+				if k != "Write" && k != "Read" {
+					isDir = false
+				}
+			}
+			if consts == nil || isDir { // the direction stays a hole, as in the token table
 				next = append(next, v)
 				continue
 			}
